@@ -713,6 +713,20 @@ fn c04_violation(rec: &Value, exempt: bool) -> Option<String> {
     }
 }
 
+/// The debug-assertions build of this binary: <target>/debug/simf next to <target>/release/simf.
+fn debug_bin() -> String {
+    if let Ok(p) = std::env::var("VERIF_DEBUG_BIN") {
+        return p;
+    }
+    let exe = std::env::current_exe().expect("current_exe");
+    exe.parent()
+        .and_then(|p| p.parent())
+        .map(|t| t.join("debug").join("simf"))
+        .unwrap_or_else(|| PathBuf::from("/verif/sim/target/debug/simf"))
+        .to_string_lossy()
+        .to_string()
+}
+
 pub fn parent_main(args: &Args, mode: Mode) -> ! {
     let id = mode.id();
     let level = "fault_enumeration";
@@ -720,8 +734,7 @@ pub fn parent_main(args: &Args, mode: Mode) -> ! {
     let known = report::load_known_findings();
     let n = proc::n_workers();
     let profiles: Vec<(&str, Option<String>)> = if mode == Mode::C06 {
-        let dbg = std::env::var("VERIF_DEBUG_BIN")
-            .unwrap_or_else(|_| "/verif/sim/target/debug/simf".into());
+        let dbg = debug_bin();
         if !Path::new(&dbg).exists() {
             simcore::harness_error(&format!("debug-profile binary {dbg} missing (run ./run builds it)"));
         }
@@ -1027,7 +1040,7 @@ pub fn replay_main(args: &Args, mode: Mode, file: &str) -> ! {
         ]
     };
     let bins: Vec<Option<String>> = if mode == Mode::C06 {
-        vec![None, Some(std::env::var("VERIF_DEBUG_BIN").unwrap_or_else(|_| "/verif/sim/target/debug/simf".into()))]
+        vec![None, Some(debug_bin())]
     } else {
         vec![None]
     };
